@@ -276,7 +276,11 @@ func newC20Server(seed int64, useSMTP bool, jitterOn bool, jsonMode bool) (*c20s
 	logger := defaults.NewLogger(s.logs)
 	ab.Config.Core.Logger = logger
 	ab.Config.Core.ErrorHandler = defaults.NewErrorHandler(logger)
-	ab.Config.Core.BodyReader = c20BodyReader{defaults.NewHTTPBodyReader(jsonMode, false)}
+	br := defaults.NewHTTPBodyReader(jsonMode, false)
+	// the application extended the shipped rulesets by appending (the slices now have spare capacity)
+	br.Rulesets["register"] = append(br.Rulesets["register"], defaults.Rules{FieldName: "name", MaxLength: 2048})
+	br.Rulesets["login"] = append(br.Rulesets["login"], defaults.Rules{FieldName: "email", MaxLength: 2048})
+	ab.Config.Core.BodyReader = c20BodyReader{br}
 	if jsonMode {
 		ab.Config.Modules.MailRouteMethod = "POST"
 	}
